@@ -108,7 +108,9 @@ structure Ctx where
   taskDirTpl : List Part          -- the task's `dir:` (a template), joined to the root
   dirAfter : Nat                  -- number of layers processed before the task dir is resolved
 
-def joinDir (root rel : Str) : Str := if rel = [] then root else root ++ [47] ++ rel
+/-- `filepathext.SmartJoin`: an absolute second path wins -/
+def joinDir (root rel : Str) : Str :=
+  if rel = [] then root else if rel.head? = some 47 then rel else root ++ [47] ++ rel
 
 /-- resolution state: the task directory once resolved, the variables, the dynamic cache -/
 structure St where
